@@ -47,6 +47,73 @@ type Stage struct {
 	JSON   []JSONParam
 	Drops  []DropParam
 	Ticked bool // render the line-filter literal as a `raw string`
+	// Chain: an UNPARENTHESISED label-filter chain l1 op1 l2 op2 l3 …; its one meaning is LogQL's: `and` binds tighter
+	// than `or`, both left-associative.  Tree then holds that reading (built by chainTree).
+	Chain *Chain
+}
+
+type Chain struct {
+	Leaves []*Leaf
+	Ops    []string // len(Leaves)-1
+}
+
+func (c *Chain) render() string {
+	var b strings.Builder
+	for i, l := range c.Leaves {
+		if i > 0 {
+			b.WriteString(" " + c.Ops[i-1] + " ")
+		}
+		b.WriteString((&Tree{Leaf: l}).render(""))
+	}
+	return b.String()
+}
+
+func (c *Chain) mixed() bool {
+	for _, o := range c.Ops {
+		if o != c.Ops[0] {
+			return true
+		}
+	}
+	return false
+}
+
+// logqlTree: `and` before `or`, left-associative.
+func (c *Chain) logqlTree() *Tree {
+	var orTerms []*Tree
+	cur := &Tree{Leaf: c.Leaves[0]}
+	for i, op := range c.Ops {
+		next := &Tree{Leaf: c.Leaves[i+1]}
+		if op == "and" {
+			cur = &Tree{Op: "and", L: cur, R: next}
+		} else {
+			orTerms = append(orTerms, cur)
+			cur = next
+		}
+	}
+	orTerms = append(orTerms, cur)
+	t := orTerms[0]
+	for _, x := range orTerms[1:] {
+		t = &Tree{Op: "or", L: t, R: x}
+	}
+	return t
+}
+
+// rightNestedTree: l1 op1 (l2 op2 (l3 …)) — the reading of a grammar `Head (Op Tail)?` rendered recursively.
+func (c *Chain) rightNestedTree() *Tree {
+	n := len(c.Leaves)
+	t := &Tree{Leaf: c.Leaves[n-1]}
+	for i := n - 2; i >= 0; i-- {
+		t = &Tree{Op: c.Ops[i], L: &Tree{Leaf: c.Leaves[i]}, R: t}
+	}
+	return t
+}
+
+func chainStage(leaves []*Tree, ops ...string) Stage {
+	c := &Chain{Ops: ops}
+	for _, l := range leaves {
+		c.Leaves = append(c.Leaves, l.Leaf)
+	}
+	return Stage{Kind: "label", Chain: c, Tree: c.logqlTree()}
 }
 
 type Query struct {
@@ -129,7 +196,11 @@ func (qu *Query) String() string {
 				b.WriteString(" " + s.Op + " " + q(s.Val))
 			}
 		case "label":
-			b.WriteString(" | " + renderTree(s.Tree))
+			if s.Chain != nil {
+				b.WriteString(" | " + s.Chain.render())
+			} else {
+				b.WriteString(" | " + renderTree(s.Tree))
+			}
 		case "json":
 			parts := make([]string, len(s.JSON))
 			for i, p := range s.JSON {
@@ -170,7 +241,11 @@ func (qu *Query) Shape() string {
 		case "line":
 			parts = append(parts, "line"+s.Op)
 		case "label":
-			parts = append(parts, "label["+treeShape(s.Tree)+"]")
+			if s.Chain != nil {
+				parts = append(parts, "chain["+treeShape(s.Tree)+"]")
+			} else {
+				parts = append(parts, "label["+treeShape(s.Tree)+"]")
+			}
 		default:
 			parts = append(parts, s.Kind)
 		}
@@ -256,6 +331,7 @@ type Rules struct {
 	MatcherNeedsLabel  bool // a matcher only ever matches streams that carry the label (index rows exist only for present labels)
 	JSONLastSegment    bool // json p="a.b": the type test uses the full path, the extraction only the last segment
 	JSONIndexAsKey     bool // json p="a[0]": the index is looked up as the object key "1"
+	ChainRightNested   bool // an unparenthesised and/or chain is read right-nested: a and b or c = a and (b or c)
 	LaterParserVisible bool // a label filter sees the labels extracted by the NEXT run of parser stages (they patch the same SELECT)
 	LaterDropVisible   bool // a label filter after the first parser sees the labels with the LATER drop stages (up to the next parser) already applied
 	HoistedLabelFilter bool // a label filter placed before the first parser stage is evaluated on the stored stream labels, ignoring earlier drop stages
@@ -277,6 +353,7 @@ func (r Rules) String() string {
 	add(r.HoistedLabelFilter, "HoistedLabelFilter")
 	add(r.LaterDropVisible, "LaterDropVisible")
 	add(r.LaterParserVisible, "LaterParserVisible")
+	add(r.ChainRightNested, "ChainRightNested")
 	return strings.Join(s, "+")
 }
 
@@ -671,6 +748,11 @@ func (o *oracle) Eval(db *Database, qu *Query, p Params) ([]Row, error) {
 		pass := true
 		for i := range qu.Stages {
 			s := &qu.Stages[i]
+			if s.Kind == "label" && s.Chain != nil && o.rules.ChainRightNested {
+				cp := *s
+				cp.Tree = s.Chain.rightNestedTree()
+				s = &cp
+			}
 			switch s.Kind {
 			case "line":
 				pass, err = o.lineFilter(s.Op, s.Val, e.Line)
